@@ -37,7 +37,7 @@ def plan(tier):
 
 def profile(tier, rng, first):
     ops = {"extend": 4, "wextend": 2, "owextend": 1, "project": 1 if first else 2, "select_rows": 3, "select_columns": 2,
-           "drop_columns": 2, "rename_columns": 2, "map_columns": 3, "order_rows": 2, "natural_join": 2, "concat_rows": 1}
+           "drop_columns": 2, "rename_columns": 2, "map_columns": 3, "order_rows": 2, "natural_join": 2, "concat_rows": 1, "convert_records": 1}
     return R.Profile(allow=R.HAZARDS - {"limit0"}, max_depth=(5 if tier == "quick" else rng.choice([4, 8])), min_depth=1,
                      ops=ops, self_join_p=0.2, final_order_p=0.1, pair_keys_p=0.25)
 
